@@ -28,7 +28,8 @@ class Meta(K3W.Meta):
     title = 'Weak Kleene alt-Q Logic'
     description = 'Weak Kleene logic with alternate quantification'
     category_order = 8
-    extension_of = ('K3W') # proof?
+    # Not an extension of K3W: with the alternate quantifiers Fa |- ExFx fails.
+    extension_of = ()
 
 class Model(K3W.Model):
 
